@@ -646,24 +646,28 @@ fn generate(seed: u64, tier: Tier, em: &mut Emitter) {
         }
     }
 
+    // the remaining cases are emitted in a fixed strided order so that the expensive sweep rows
+    // are spread evenly over check.py's correspondence shards
+    let mut queue: Vec<(&str, Value, bool, Vec<&str>)> = Vec::new();
+
     // 2. exhaustive sweep: every sequence up to length 6 over {-1, 0, 2}, every split into 1..4
     //    parts, 3 leaf modes, both merge orders, every combiner, TopK k = 0..n+1
     let maxlen = if tier == Tier::Thorough { 7 } else { 6 };
     for s in all_seqs(&[-1, 0, 2], maxlen) {
         let nt = s.len() >= 2;
-        em.case("sweep", json!([s, 4, 1]), nt, &["exhaustive"]);
+        queue.push(("sweep", json!([s, 4, 1]), nt, vec!["exhaustive"]));
     }
     if tier == Tier::Thorough {
         // four values, up to five parts
         for s in all_seqs(&[-2, -1, 0, 3], 5) {
             let nt = s.len() >= 2;
-            em.case("sweep", json!([s, 5, 2]), nt, &["exhaustive", "four-values"]);
+            queue.push(("sweep", json!([s, 5, 2]), nt, vec!["exhaustive", "four-values"]));
         }
     }
     // the same over quarter-valued inputs for the mean (shorter)
     for s in all_seqs(&[-3, 1, 2], 3) {
         let nt = s.len() >= 2;
-        em.case("sweep", json!([s, 3, 4]), nt, &["exhaustive", "quarters"]);
+        queue.push(("sweep", json!([s, 3, 4]), nt, vec!["exhaustive", "quarters"]));
     }
 
     // 3. random longer accumulator expressions
@@ -699,8 +703,23 @@ fn generate(seed: u64, tier: Tier, em: &mut Emitter) {
         };
         let k = if cid == 8 { *rng.pick(&[0usize, 4, 5, 8, 16]) } else { k };
         let e = random_expr(&mut rng, &vals);
-        emit_expr(em, cid, k, den, e, &["random"]);
+        let (nv, mg) = expr_stats(&e);
+        queue.push(("expr", json!([cid, k, den, e]), nv >= 2 && mg, vec!["random"]));
     }
+    let n = queue.len();
+    let mut stride = 7919 % n.max(1);
+    while stride == 0 || gcd(stride, n) != 1 {
+        stride += 1;
+    }
+    let mut slots: Vec<Option<(&str, Value, bool, Vec<&str>)>> = queue.into_iter().map(Some).collect();
+    for i in 0..n {
+        let (kind, input, nt, tags) = slots[(i * stride) % n].take().unwrap();
+        em.case(kind, input, nt, &tags);
+    }
+}
+
+fn gcd(a: usize, b: usize) -> usize {
+    if b == 0 { a } else { gcd(b, a % b) }
 }
 
 fn main() {
